@@ -34,6 +34,17 @@ type Trace struct {
 
 	// replay files only
 	Expect *Expect `json:"expect,omitempty"`
+	// History: runs (generated from seed/tier) that the replay executes in
+	// this order, in the same process, before the trace itself. Needed only
+	// when a violation depends on process-wide library state created by
+	// earlier instances (e.g. a package-level counter or cache).
+	History *History `json:"history,omitempty"`
+}
+
+type History struct {
+	Seed uint64 `json:"verif_seed"`
+	Tier string `json:"tier"`
+	Runs []int  `json:"runs"`
 }
 
 type Expect struct {
